@@ -26,7 +26,7 @@ import translate_repro
 
 IMPORTS = "From V Require Import Model.Repro Model.ReproRun."
 HERE = os.path.dirname(os.path.abspath(__file__))
-CFG_ID = {"default": 0, "legacy": 1, "nosmooth": 2, "randsel": 3, "adaptive": 4, "recluster1": 5, "silhouette": 6}
+CFG_ID = {"default": 0, "legacy": 1, "nosmooth": 2, "randsel": 3, "adaptive": 4, "recluster1": 5, "silhouette": 6, "devalpha": 7}
 SCRATCH = "/var/tmp/verif-c03-%d" % os.getpid()
 
 
@@ -122,8 +122,14 @@ def build_jobs(run, recl_default):
     draws = [((k_un, n_un), drawn)]
     jobs = []
 
-    def job(label, ops, threads=1, imports="numpy-first", cold=False, group=None):
-        jobs.append({"label": label, "ops": ops, "threads": threads, "imports": imports, "cold": cold, "group": group})
+    def job(label, ops, threads=1, imports="numpy-first", cold=False, group=None, cache=None, stage=0, populated_by=None):
+        """cache: name of a PRIVATE numba cache directory (None = the shared warm one); cold=True: a private empty one;
+        stage 1: the job starts when the stage-0 job of the same cache has finished (a fresh process on the cache it left)"""
+        if cold and cache is None:
+            cache = "cold-%d" % len(jobs)
+        jobs.append({"label": label, "ops": ops, "threads": threads, "imports": imports, "cold": cold, "group": group,
+                     "cache": cache, "stage": stage, "populated_by": populated_by})
+        return jobs[-1]
 
     # reference: every target once, canonical order, one thread
     job("reference", list(T))
@@ -233,8 +239,20 @@ def build_jobs(run, recl_default):
     # the package imported before numpy (the pin of hourly/model.py:26-28 then runs first)
     job("opendsm-first", [fit("hourly", dsh[0], "default", sd), fit("daily", dsd[0]), fit("billing", dsb[0])], threads=8,
         imports="opendsm-first")
-    # cold numba cache
+    # cold numba cache, populated by default fits (control: cold vs warm alone must not matter)
     job("cold-jit", [fit("daily", dsd[1]), fit("billing", dsb[1])], cold=True)
+    # a PRIVATE cold numba cache populated by a developer-profile fit with non-default loss settings, followed by a default
+    # fit in that process; then a fresh process on the cache it left.  (numba freezes module-level values into the code it
+    # caches on disk: whatever a fit wrote into a module global would decide the results of later processes)
+    dev = fit("daily", dsd[0], "devalpha")
+    pop = job("jit-populated-by-developer-profile", [dev, fit("daily", dsd[0]), fit("billing", dsb[0])], cache="dev", stage=0)
+    job("jit-reuse-developer-cache", [fit("daily", dsd[1]), fit("billing", dsb[1]), fit("daily", dsd[0])], cache="dev", stage=1,
+        populated_by={k: pop[k] for k in ("label", "ops", "threads", "imports", "cold", "cache")})
+    if thorough:
+        jobs[0]["ops"] = jobs[0]["ops"] + [dev]          # the developer profile itself: warm shared cache vs cold
+        pop2 = job("jit-populated-by-developer-profile", [dev, fit("billing", dsb[1]), fit("daily", dsd[2])], cache="dev8", stage=0, threads=8)
+        job("jit-reuse-developer-cache", [fit("daily", d) for d in dsd[:4]] + [fit("billing", d) for d in dsb[:3]], cache="dev8", stage=1,
+            threads=8, populated_by={k: pop2[k] for k in ("label", "ops", "threads", "imports", "cold", "cache")})
     # CalTRACK hourly: fresh with 1 and with 8 threads, and after fits of other families
     # (quick: 2 threads instead of 8 -- a LAPACK-heavy fit with 8 spinning BLAS threads on a shared machine takes minutes)
     for ct in CT:
@@ -248,6 +266,9 @@ def build_jobs(run, recl_default):
 
 # ------------------------------------------------------------------------------------------------ execution
 
+EVENTS = {}
+
+
 def run_job(args):
     idx, j, timeout = args
     env = dict(os.environ)
@@ -255,17 +276,28 @@ def run_job(args):
         env[v] = str(j["threads"])
     env["PYTHONPATH"] = vlib.repo_root()
     env["PYTHONHASHSEED"] = "0"
-    if j["cold"]:
-        d = os.path.join(SCRATCH, "numba-%d" % idx)
+    cache = j.get("cache")
+    if cache:
+        d = os.path.join(SCRATCH, "numba-%s" % cache)
         os.makedirs(d, exist_ok=True)
         env["NUMBA_CACHE_DIR"] = d
+        if j.get("stage"):
+            ev = EVENTS.get(cache)
+            if ev is not None:
+                ev.wait(timeout)
+            elif j.get("populated_by"):      # replay of this job alone: populate the cache first
+                run_job((idx, dict(j["populated_by"], stage=0, populated_by=None), timeout))
     t0 = time.time()
     try:
-        p = subprocess.run([sys.executable, "-W", "ignore", os.path.join(HERE, "c03_worker.py")],
-                           input=json.dumps({"ops": j["ops"], "imports": j["imports"]}), capture_output=True, text=True,
-                           env=env, timeout=timeout)
-    except subprocess.TimeoutExpired:
-        return {"error": "timeout after %ds" % timeout, "wall": time.time() - t0}
+        try:
+            p = subprocess.run([sys.executable, "-W", "ignore", os.path.join(HERE, "c03_worker.py")],
+                               input=json.dumps({"ops": j["ops"], "imports": j["imports"]}), capture_output=True, text=True,
+                               env=env, timeout=timeout)
+        except subprocess.TimeoutExpired:
+            return {"error": "timeout after %ds" % timeout, "wall": time.time() - t0}
+    finally:
+        if cache and not j.get("stage") and cache in EVENTS:
+            EVENTS[cache].set()
     for line in p.stdout.splitlines():
         if line.startswith("C03RESULT "):
             r = json.loads(line[len("C03RESULT "):])
@@ -275,11 +307,17 @@ def run_job(args):
 
 
 def execute(run, jobs):
+    import threading
     os.makedirs(SCRATCH, exist_ok=True)
     par = int(os.environ.get("C03_PAR", "14"))
     timeout = run.n(900, 2400)
-    # simultaneous groups first and together, long jobs (CalTRACK) early
-    order = sorted(range(len(jobs)), key=lambda i: (jobs[i]["group"] is None, not jobs[i]["label"].startswith("caltrack"),
+    EVENTS.clear()
+    for j in jobs:
+        if j.get("cache") and not j.get("stage") and any(k.get("cache") == j["cache"] and k.get("stage") for k in jobs):
+            EVENTS[j["cache"]] = threading.Event()
+    # cache-populating jobs (cold compile) first, simultaneous groups together, long jobs (CalTRACK) early, waiting jobs last
+    order = sorted(range(len(jobs)), key=lambda i: (bool(jobs[i].get("stage")), not (jobs[i].get("cache") in EVENTS),
+                                                    jobs[i]["group"] is None, not jobs[i]["label"].startswith("caltrack"),
                                                     -len(jobs[i]["ops"])))
     with ThreadPoolExecutor(par) as ex:
         res = list(ex.map(run_job, [(i, jobs[i], timeout) for i in order]))
@@ -349,7 +387,7 @@ def oracle(run, jobs, results):
 
 
 def strip(j):
-    return {k: j[k] for k in ("label", "ops", "threads", "imports", "cold")}
+    return {k: j.get(k) for k in ("label", "ops", "threads", "imports", "cold", "cache", "stage", "populated_by")}
 
 
 # ------------------------------------------------------------------------------------------------ Coq emission
@@ -415,8 +453,16 @@ def coq_hist(idx, j, r, ids, recl_default):
         else:
             ops.append(coq_op(op, recl_default))
             obs.append(ob)
-    return "Definition h%d : hist := (%s, %s, %s, %s, %s)." % (
-        idx, zlit(idx + 1), zlit(j["threads"]), zlit(ids("rng", r["info"]["rng0"])), coq_list(ops), coq_list(obs))
+    if j.get("cache") and j.get("stage") and j.get("populated_by"):
+        first = next(o for o in j["populated_by"]["ops"] if o["op"] == "fit")
+        cache = "[(%s, %s)]" % ({"daily": "Daily", "billing": "Billing", "hourly": "Hourly", "caltrack": "CalTrack"}[first["fam"]],
+                                zlit(CFG_ID[first["cfg"]]))
+    elif j.get("cache"):
+        cache = "[]"                                                   # a private, empty cache directory
+    else:
+        cache = "[(Daily, 0%Z); (Billing, 0%Z); (Hourly, 0%Z)]"        # the shared warm cache of the check
+    return "Definition h%d : hist := (%s, %s, %s, %s, %s, %s)." % (
+        idx, zlit(idx + 1), zlit(j["threads"]), cache, zlit(ids("rng", r["info"]["rng0"])), coq_list(ops), coq_list(obs))
 
 
 def coq_draw_table(draws):
@@ -477,6 +523,10 @@ def main():
     if run.replay:
         rep = json.load(open(run.replay))
         jobs = [dict(j, group=None) for j in rep["case"].get("jobs", [])]
+        for j in jobs:
+            j.setdefault("cache", "cold-replay" if j.get("cold") else None)
+            j.setdefault("stage", 0)
+            j.setdefault("populated_by", None)
         draws = []
         if not jobs:
             run.log("replay file carries no jobs (a broken proof / tie): re-running the full check")
